@@ -33,7 +33,12 @@ NXS = (3, 10, 30, 100, 400)
 GRIDS = ("uniform", "quadratic", "geometric", "random", "big50")
 SCHEDULES = ("constant", "stepdown", "random")
 TABLES = ("gas", "haynesville", "syn_rising", "syn_kinked")
-P_INITIAL = {"gas": 8000.0, "haynesville": 12000.0, "syn_rising": 8000.0, "syn_kinked": 8000.0, "syn_const": 8000.0}
+class _ByBase(dict):
+    def __missing__(self, k):
+        return self[k.split(":")[0]]
+
+
+P_INITIAL = _ByBase({"gas": 8000.0, "haynesville": 12000.0, "syn_rising": 8000.0, "syn_kinked": 8000.0, "syn_const": 8000.0})
 REL_TOL = 1e-9  # of the drawdown m_i - min m_f
 ABS_TOL = 1e-10  # times max(|m_i|, 1): rounding of the linear solve, which does not shrink with the drawdown
 STEADY_TOL = 1e-6
@@ -61,7 +66,18 @@ def synthetic_alpha_table(kind, n=400, p_lo=10.0, p_hi=10000.0):
     return {"pressure": p, "pseudopressure": p**2, "alpha": alpha}
 
 
+def reorder(tab, how):
+    """the same rows in another order (FlowProperties / the reservoirs accept any row order: every interp1d sorts)"""
+    if how == "desc":
+        return tab.iloc[::-1].reset_index(drop=True)
+    if how == "shuf":
+        return tab.sample(frac=1.0, random_state=0).reset_index(drop=True)
+    raise KeyError(how)
+
+
 def table_params(name):
+    if ":" in name:
+        return dict(table_params(name.split(":")[0]), row_order={"desc": "rows reversed (descending pressure)", "shuf": "rows shuffled (DataFrame.sample(frac=1, random_state=0))"}[name.split(":")[1]])
     if name == "gas":
         return {"file": DATA + "pvt_gas.csv", "rename": {"P": "pressure", "Z-Factor": "z-factor", "Cg": "compressibility", "Viscosity": "viscosity", "Density": "density"}}
     if name == "haynesville":
@@ -74,6 +90,9 @@ def table_params(name):
 def load_table(name):
     if ("table", name) in _cache:
         return _cache[("table", name)]
+    if ":" in name:
+        tab = _cache[("table", name)] = reorder(load_table(name.split(":")[0]), name.split(":")[1])
+        return tab
     if name in ("gas", "haynesville"):
         import pandas as pd
 
@@ -245,6 +264,16 @@ def _nt(grid, nx, tier):
     return 40 if tier == "quick" else 300
 
 
+def row_order_runs(seed):
+    """the same tables with rows in descending / shuffled order (row order is not part of any precondition)"""
+    out = []
+    for n, (table, sched) in enumerate((("gas:desc", "constant"), ("syn_kinked:shuf", "stepdown"), ("haynesville:desc", "random"))):
+        p_i = P_INITIAL[table]
+        out.append({"reservoir": "single", "table": table, "table_params": table_params(table), "p_i": p_i, "p_f": 0.5 * p_i, "ratio": 0.5, "nx": 30,
+                    "grid": {"kind": "quadratic", "nt": 40, "t_end": 5.0, "seed": seed * 100057 + n}, "schedule": {"kind": sched, "seed": seed * 100069 + n, "levels": 4, "hold": 3}})
+    return out
+
+
 def family(tier, seed):
     runs = []
     for n, (table, ratio, nx, grid, sched) in enumerate(itertools.product(TABLES, RATIOS, NXS, GRIDS, SCHEDULES)):
@@ -255,10 +284,11 @@ def family(tier, seed):
     for n, (nx, grid) in enumerate(itertools.product(NXS, GRIDS)):
         runs.append({"reservoir": "ideal", "table": "ideal", "table_params": None, "p_i": 8000.0, "p_f": 4000.0, "ratio": 0.5, "nx": nx,
                      "grid": {"kind": grid, "nt": _nt(grid, nx, tier), "t_end": 5.0, "seed": seed * 100043 + n}, "schedule": {"kind": "constant"}})
+    reordered = row_order_runs(seed)
     if tier != "quick":
-        return runs
+        return runs + reordered
     rng = random.Random(seed)
-    must, rest = [], []
+    must, rest = list(reordered), []
     for r in runs:
         if r["reservoir"] == "single" and r["ratio"] in (0.9875, 0.999) and r["grid"]["kind"] == "big50" and r["schedule"]["kind"] == "constant":
             must.append(r)  # 4 tables x 2 ratios x 5 node counts = 40 runs
